@@ -236,4 +236,47 @@ def r12_current_contents(ctx):
     ctx.borrow(c16.r16_3, 'R12.5')
 
 
-RULES = [('R12.6', r12_merged_track), ('R12-scenarios', r12_scenarios), ('R12.5', r12_current_contents)]
+def r12_results_independent(ctx):
+    """Every merge builds its result from new messages: two results share no message object, and none of them is an object the
+    module keeps (a ready-made end_of_track) - so a caller that edits the track it got (pads the closing end_of_track to the
+    bar) changes that track and nothing else.  Otherwise the next merge in the process comes back longer than its longest input."""
+    ai = smf.make_interp(ctx)
+    mt = ctx.fn(ctx.p.func(TR, 'merge_tracks'))
+    w = ctx.where(mt)
+    n = 0
+    for name in ('no-tracks', 'one-empty-track', 'missing-eot', 'ties-across-and-within', 'only-eot-is-longest', 'three-way-tie-at-zero'):
+        spec = SCENARIOS[name]
+        for skip in (False, True):
+            n += 1
+
+            def thunk():
+                t1, _ = build(ai, ctx, spec)
+                r1 = ai.call_function(mt, [AList(t1, 'list')], {'skip_checks': skip})
+                i1 = list(r1.items) if isinstance(r1, AList) else None
+                old = None
+                if i1:
+                    # what a caller may do with its own result
+                    old = i1[-1].attrs.get('time')
+                    i1[-1].attrs['time'] = 1000
+                t2, _ = build(ai, ctx, spec)
+                r2 = ai.call_function(mt, [AList(t2, 'list')], {'skip_checks': skip})
+                i2 = list(r2.items) if isinstance(r2, AList) else None
+                if i1 is None or i2 is None:
+                    return 'not a track'
+                shared = [x for x in i1 if any(x is y for y in i2)]
+                last = i2[-1].attrs.get('time') if i2 and isinstance(i2[-1], AObj) else None
+                if i1:
+                    i1[-1].attrs['time'] = old           # (an object the module keeps would carry the edit into the other rules)
+                return len(shared), last
+            outs = ai.explore(thunk)
+            want_last = reference(spec)[1]
+            ok = len(outs) == 1 and outs[0].kind == 'return' and isinstance(outs[0].value, tuple) and outs[0].value[0] == 0 and outs[0].value[1] == want_last
+            ctx.require(ok, 'R12.7', f'merge[{name}{", skip_checks" if skip else ""}] twice, first result edited in between', w,
+                        f'(messages shared by the two results, closing delta of the second) = {outs[0].value if len(outs) == 1 and outs[0].kind == "return" else outs!r}; '
+                        f'expected (0, {want_last}): a merge hands out an object it (or the module) keeps', construct=f'{mt.qname}::shared-result-message')
+    ctx.floor('R12.7', n, 12)
+    for q in ai.inlined:
+        ctx.functions.add(q)
+
+
+RULES = [('R12.7', r12_results_independent), ('R12.6', r12_merged_track), ('R12-scenarios', r12_scenarios), ('R12.5', r12_current_contents)]
